@@ -3,10 +3,10 @@ package main
 // Small building blocks shared by the rules.
 
 import (
-	"regexp"
 	"fmt"
 	"go/token"
 	"go/types"
+	"regexp"
 	"sort"
 	"strings"
 
@@ -779,24 +779,46 @@ var closureOrdinal = regexp.MustCompile(`\$\d+`)
 // normClosure replaces closure ordinals in a name or table key by a wildcard
 func normClosure(s string) string { return closureOrdinal.ReplaceAllString(s, "$$·") }
 
-// lookupReviewed finds a reviewed-table entry by its exact key, or by its key with the closure ordinals ignored
+var namedLocal = regexp.MustCompile(`\b(param|var|recv|captured):[A-Za-z_][A-Za-z0-9_]*`)
+
+// normNames additionally ignores the names of parameters, receivers and captured variables in a canonical expression
+func normNames(s string) string {
+	return namedLocal.ReplaceAllString(normClosure(s), "$1:·")
+}
+
+// lookupReviewed finds a reviewed-table entry by its exact key; failing that by its key with closure ordinals ignored;
+// failing that with the names of parameters / captured variables ignored as well (a renamed parameter or a function
+// literal added earlier in the parent must not invalidate a review). A normalised match must be unique.
 func lookupReviewed(table map[string]string, key string) (string, bool) {
-	if v, ok := table[key]; ok {
-		return v, true
-	}
-	if !strings.Contains(key, "$") {
+	k, ok := lookupReviewedKey(table, key)
+	if !ok {
 		return "", false
 	}
-	nk := normClosure(key)
-	var keys []string
-	for k := range table {
-		if strings.Contains(k, "$") && normClosure(k) == nk {
-			keys = append(keys, k)
-		}
+	return table[k], true
+}
+
+// lookupReviewedKey is lookupReviewed returning the key of the entry that matched
+func lookupReviewedKey(table map[string]string, key string) (string, bool) {
+	if _, ok := table[key]; ok {
+		return key, true
 	}
-	sort.Strings(keys)
-	if len(keys) > 0 {
-		return table[keys[0]], true
+	for _, norm := range []func(string) string{normClosure, normNames} {
+		nk := norm(key)
+		var keys []string
+		for k := range table {
+			if norm(k) == nk {
+				keys = append(keys, k)
+			}
+		}
+		sort.Strings(keys)
+		if len(keys) == 1 {
+			return keys[0], true
+		}
+		if len(keys) > 1 {
+			// several entries collapse to one normal form: accept only if the query's exact-name twin is absent from the tree,
+			// i.e. never guess between different reviewed sites
+			return "", false
+		}
 	}
 	return "", false
 }
@@ -837,4 +859,10 @@ func isConstructionBoundary(f *ssa.Function) bool {
 		}
 	}
 	return false
+}
+
+// isPlainCallback: func() — a completion callback without arguments or results
+func isPlainCallback(t types.Type) bool {
+	sig, ok := t.Underlying().(*types.Signature)
+	return ok && sig.Params().Len() == 0 && sig.Results().Len() == 0
 }
